@@ -13,6 +13,9 @@ VAR_TYPES = ['uint256', 'bool', 'string', 'bytes', 'address', 'bytes4', 'mapping
 COUNTER = [0]
 
 
+NAME_SHAPES = ['MAX_SUPPLY', 'OWNER', 'X1', '_MAX_SUPPLY', '__doubled', '_', 'x_', 'a_b_c', 'mixedCase', 'x']
+
+
 def fresh(prefix):
     COUNTER[0] += 1
     return '%s%d' % (prefix, COUNTER[0])
@@ -60,7 +63,7 @@ def var_type(b, t):
     raise ValueError(t)
 
 
-def make_variable(b, t, vis, mut, underscore, init=False):
+def make_variable(b, t, vis, mut, underscore, init=False, name=None):
     attrs = []
     if vis:
         attrs.append(b.vattr('visibility', vis))
@@ -68,7 +71,7 @@ def make_variable(b, t, vis, mut, underscore, init=False):
         attrs.append(b.vattr(mut))
     if t == 'function':
         attrs = []                     # the grammar allows no attributes after a function type
-    return b.state_var(var_type(b, t), ('_' if underscore else '') + fresh('v'), attrs, b.num(1) if init else None)
+    return b.state_var(var_type(b, t), name or (('_' if underscore else '') + fresh('v')), attrs, b.num(1) if init else None)
 
 
 def file_of(b, items):
@@ -110,6 +113,14 @@ def cases(chk):
     for t, vis, mut, us in itertools.product(VAR_TYPES, [None, 'public', 'private', 'internal'], [None, 'constant', 'immutable'], (False, True)):
         out.append(('var %s %s %s _=%s' % (t, vis, mut, us),
                     lambda b, a=(t, vis, mut, us): file_of(b, [('contract', 'Contract', [make_variable(b, *a, init=a[2] == 'constant')])])))
+    # the verdict on a name depends on its first character only: names in CONSTANT_CASE, with digits, with inner / trailing / doubled
+    # underscores, of one character -- for every visibility and mutability
+    for shape in NAME_SHAPES:
+        for vis, mut in itertools.product([None, 'public', 'private', 'internal'], [None, 'constant', 'immutable']):
+            out.append(('var named %s %s %s' % (shape, vis, mut),
+                        lambda b, a=(shape, vis, mut): file_of(b, [('contract', 'Contract', [make_variable(b, 'uint256', a[1], a[2], False, init=a[2] == 'constant', name=a[0])])])))
+        for vis in VIS:
+            out.append(('fn named %s %s' % (shape, vis), lambda b, a=(shape, vis): file_of(b, [('contract', 'Contract', [make_function(b, 'Function', a[1], False, True, False, name=a[0])])])))
     for t, mut in itertools.product(['uint256', 'string', 'user'], ['constant']):
         out.append(('file-level %s %s' % (t, mut), lambda b, a=(t, mut): file_of(b, [('filevar', make_variable(b, a[0], None, a[1], False, init=True)),
                                                                                        ('contract', 'Contract', [])])))
@@ -239,7 +250,8 @@ def body(chk):
     idx = list(range(n))
     if chk.quick:
         chk.rng.shuffle(idx)
-        core = [i for i, (l, _) in enumerate(cases(chk)) if l.startswith(('members', 'contracts', 'free function', 'unnamed legacy', 'vars attributed')) or 'attribute order' in l]
+        core = [i for i, (l, _) in enumerate(cases(chk)) if l.startswith(('members', 'contracts', 'free function', 'unnamed legacy', 'vars attributed')) or 'attribute order' in l
+                or (l.startswith('var named') and ('private' in l or 'internal' in l)) or (l.startswith('fn named') and ('private' in l or 'internal' in l))]
         idx = sorted(set(core) | set(idx[:260]))
     chk.bounds = {'files': '%d of %d declaration shapes x 5 detectors' % (len(idx), n),
                   'shapes': 'function kind x visibility x payable x body x underscore x contract kind; variable type x visibility x constant/immutable x underscore; '
